@@ -17,6 +17,8 @@
 #include <mutex>
 #include <boost/graph/adjacency_list.hpp>
 #include <boost/property_map/property_map.hpp>
+#include <tbb/task_arena.h>
+#include <tbb/global_control.h>
 #include <parmcb/parmcb.hpp>
 #include <parmcb/util.hpp>
 #include <thread>
@@ -43,6 +45,7 @@ struct Ctx {
     std::vector<Edge> edges;
     std::size_t n = 0, m = 0;
     std::string kind;
+    int arena = 0;
 
     long long scaled(W w) const {            // exact: w * 2^scale is an integer in the exact domain
         double x = std::ldexp((double) w, (int) scale);
@@ -54,11 +57,12 @@ struct Ctx {
     void build(const CaseIn &c) {
         kind = c.kind;
         scale = std::stol(c.args.at(1));
+        for (auto &a : c.args) if (a.compare(0, 6, "arena=") == 0) arena = std::stoi(a.substr(6));
         for (auto &w : c.body) {
             if (w[0] == "g") { n = std::stoul(w[1]); m = std::stoul(w[2]); for (std::size_t i = 0; i < n; i++) add_vertex(g); }
             else if (w[0] == "e") {
                 auto e = add_edge(std::stoul(w[1]), std::stoul(w[2]), g).first;
-                if (c.kind == "exactf") put(edge_weight, g, e, (W) std::strtod(w[3].c_str(), nullptr));   // arbitrary (inexact) doubles
+                if (c.kind == "exactf" || c.kind == "ftrees") put(edge_weight, g, e, (W) std::strtod(w[3].c_str(), nullptr));   // arbitrary (inexact) doubles
                 else put(edge_weight, g, e, (W) std::ldexp((double) std::stoll(w[3]), (int) -scale));
                 put(edge_index, g, e, edges.size());
                 edges.push_back(e);
@@ -201,13 +205,26 @@ void do_exact(Ctx<W> &x, const std::string &variant) {
         std::vector<typename Ctx<W>::Vertex> fv; parmcb::greedy_fvs(x.g, std::back_inserter(fv));
         std::cout << "fvs"; for (auto v : fv) std::cout << " " << v; std::cout << "\n";
     }
-    if (variant == "signed") ret = parmcb::mcb_sva_signed(x.g, wm, std::back_inserter(cycles));
-    else if (variant == "fvs") ret = parmcb::mcb_sva_fvs_trees(x.g, wm, std::back_inserter(cycles));
-    else if (variant == "iso") ret = parmcb::mcb_sva_iso_trees(x.g, wm, std::back_inserter(cycles));
-    else if (variant == "signed_tbb") ret = parmcb::mcb_sva_signed_tbb(x.g, wm, std::back_inserter(cycles));
-    else if (variant == "fvs_tbb") ret = parmcb::mcb_sva_fvs_trees_tbb(x.g, wm, std::back_inserter(cycles));
-    else if (variant == "iso_tbb") ret = parmcb::mcb_sva_iso_trees_tbb(x.g, wm, std::back_inserter(cycles));
-    else { std::cout << "error unknown-variant\n"; return; }
+    bool known = true;
+    auto call = [&]() {
+        if (variant == "signed") ret = parmcb::mcb_sva_signed(x.g, wm, std::back_inserter(cycles));
+        else if (variant == "fvs") ret = parmcb::mcb_sva_fvs_trees(x.g, wm, std::back_inserter(cycles));
+        else if (variant == "iso") ret = parmcb::mcb_sva_iso_trees(x.g, wm, std::back_inserter(cycles));
+        else if (variant == "signed_tbb") ret = parmcb::mcb_sva_signed_tbb(x.g, wm, std::back_inserter(cycles));
+        else if (variant == "fvs_tbb") ret = parmcb::mcb_sva_fvs_trees_tbb(x.g, wm, std::back_inserter(cycles));
+        else if (variant == "iso_tbb") ret = parmcb::mcb_sva_iso_trees_tbb(x.g, wm, std::back_inserter(cycles));
+        else known = false;
+    };
+    // `arena=N`: the entry point is called inside an explicit tbb::task_arena(N) — N may exceed the hardware concurrency
+    // (an oversubscribed arena is a legal worker count)
+    if (x.arena > 0) {
+#ifndef PARMCB_SHIM
+        tbb::global_control gc(tbb::global_control::max_allowed_parallelism, (std::size_t) x.arena);
+#endif
+        tbb::task_arena ar(x.arena);
+        ar.execute(call);
+    } else call();
+    if (!known) { std::cout << "error unknown-variant\n"; return; }
     shim_end(variant == "signed_tbb");
 #ifdef PARMCB_VERIF
     parmcb::verif::search_hook() = nullptr;
@@ -250,6 +267,45 @@ void do_trees(Ctx<W> &x) {
         std::cout << "\nfirst";
         for (std::size_t v = 0; v < x.n; v++) std::cout << " " << t.first(v);
         std::cout << "\n";
+    }
+}
+
+
+// C09: labels computed in DOUBLE arithmetic on arbitrary double weights, printed exactly (hex floats): the lexicographic
+// shortest-path tree of every source (SPTree) and the labels of parmcb::dijkstra; plus the plain accumulation of all weights
+static void put_hex(double v) { char b[64]; std::snprintf(b, sizeof b, "%a", v); std::cout << b; }
+template<class W>
+void do_ftrees(Ctx<W> &x) {
+    typedef typename Ctx<W>::Graph Graph; typedef typename Ctx<W>::Edge Edge;
+    typedef typename property_map<Graph, edge_weight_t>::type WM;
+    typedef typename property_map<Graph, vertex_index_t>::type IM;
+    WM wm = get(edge_weight, x.g);
+    IM im = get(vertex_index, x.g);
+    W acc = W();
+    for (auto &e : x.edges) acc += get(wm, e);
+    std::cout << "acc "; put_hex((double) acc); std::cout << "\n";
+    for (std::size_t s = 0; s < x.n; s++) {
+        parmcb::SPTree<Graph, WM> t(s, x.g, im, wm, s);
+        std::cout << "ltree " << s << "\n";
+        for (std::size_t v = 0; v < x.n; v++) {
+            auto nd = t.node(v);
+            if (!nd) continue;
+            std::cout << "ld " << v << " "; put_hex((double) nd->weight());
+            if (nd->has_pred()) std::cout << " " << x.id(nd->pred()); else std::cout << " -";
+            std::cout << "\n";
+        }
+        std::vector<W> dist(x.n, (std::numeric_limits<W>::max)());
+        std::vector<std::tuple<bool, Edge>> pred(x.n, std::make_tuple(false, Edge()));
+        auto dm = make_iterator_property_map(dist.begin(), im);
+        auto pm = make_iterator_property_map(pred.begin(), im);
+        parmcb::dijkstra(x.g, wm, s, dm, pm);
+        std::cout << "dtree " << s << "\n";
+        for (std::size_t v = 0; v < x.n; v++) {
+            if (v != s && !std::get<0>(pred[v])) continue;
+            std::cout << "dd " << v << " "; put_hex((double) dist[v]);
+            if (v != s) std::cout << " " << x.id(std::get<1>(pred[v])); else std::cout << " -";
+            std::cout << "\n";
+        }
     }
 }
 
@@ -407,6 +463,7 @@ void run_case(const CaseIn &c) {
     else if (c.kind == "fvs") do_fvs(x);
     else if (c.kind == "exact" || c.kind == "exactf") { shim_begin(c, 3); do_exact(x, c.args.at(2)); }
     else if (c.kind == "trees") do_trees(x);
+    else if (c.kind == "ftrees") do_ftrees(x);
     else if (c.kind == "cands") do_cands(x, c.args.at(2));
     else if (c.kind == "spanner") do_spanner(x, std::stoul(c.args.at(2)));
     else if (c.kind == "approx") { shim_begin(c, 4); do_approx_dispatch(x, c); }
